@@ -2,6 +2,8 @@
 From Bita Require Import Model.Base Model.ChunkIndex Model.CloneOutput Model.CloneSpec.
 From Bita Require Import Gen.Generated Model.OutFile.
 From Bita Require Import Proofs.Planner Proofs.CloneCorrect Proofs.CloneFinal Proofs.OutFileProofs.
+From Bita Require Import Model.Chunker Model.Proto Model.Archive Model.Compress Model.CloneArchive Model.CloneBytes.
+From Bita Require Import Proofs.ProtoRoundTrip Proofs.RoundTrip Proofs.CloneBytesCorrect.
 
 (* (ii) a run in which write number k failed or was cut short (any k below the number of writes of the
    uninterrupted run, any tear length t) never reports success *)
@@ -45,7 +47,22 @@ Example C05_example :
   o_err (cr_state r) <> None /\ o_file (cr_state r) = [3;4;5;1].
 Proof. vm_compute. split; [discriminate|reflexivity]. Qed.
 
+(* (i) over raw bytes: WHATEVER bytes [left] an interrupted, failed or killed run (or a chain of such runs) left in
+   the output file -- no hypothesis on them at all besides the absence of a hash collision among the chunks the
+   re-run looks at --, re-running the clone in place on them (with or without seeds) yields exactly the source.
+   The scan of [left], the in-place re-ordering, the seeds, the archive phase and the resize are all in the model. *)
+Theorem C05_rerun_on_any_leftover_bytes :
+  forall (H comp : list N -> list N) (decomp : N -> list N -> option (list N)),
+    (forall x, lenN (H x) = 64) -> (forall x, Forall (fun b => b < 256) (H x)) ->
+    forall src o bytes left seeds,
+      opts_ok o -> bytes_ok src -> lenN src < 18446744073709551616 -> lenN bytes < 18446744073709551616 ->
+      codec_ok comp decomp o -> few_chunks o src -> no_collision H o src left true seeds ->
+      compress_model H comp src o = Ok bytes ->
+      open_and_clone_bytes H decomp bytes left true seeds = Ok src.
+Proof. intros H comp decomp HL HB src o bytes left seeds. exact (open_and_clone_bytes_correct H comp decomp HL HB src o bytes left true seeds). Qed.
+
 Print Assumptions C05_output_file_reports_failed_write.
 Print Assumptions C05_unflushed_would_lose_last_error.
 Print Assumptions C05_failed_write_not_ok.
 Print Assumptions C05_rerun_completes.
+Print Assumptions C05_rerun_on_any_leftover_bytes.
